@@ -8,6 +8,7 @@ import (
 	"os"
 	"reflect"
 	"regexp"
+	"strings"
 	"time"
 	"unicode/utf8"
 
@@ -279,9 +280,17 @@ func cmdRapidgen(args []string) {
 	w := bufio.NewWriter(of)
 	defer w.Flush()
 	anyURLs := []string{}
-	for _, cand := range []string{"verif.s0.N", "B", "verif.xb.Leaf", "verif.xa.Box"} {
+	// type URLs of every shape a resolver accepts (the message name is what follows the LAST
+	// slash), naming ordinary messages and well-known types (whose rules then apply inside the Any)
+	for i, cand := range []string{"verif.s0.N", "B", "verif.xb.Leaf", "verif.xa.Box", "google.protobuf.Timestamp", "google.protobuf.Duration", "google.protobuf.FieldMask"} {
 		if _, err := protoregistry.GlobalTypes.FindMessageByName(protoreflect.FullName(cand)); err == nil {
-			anyURLs = append(anyURLs, "/"+cand)
+			anyURLs = append(anyURLs, []string{"/", "type.googleapis.com/", "https://host.example/x/v1/"}[i%3]+cand)
+		}
+	}
+	var hostedURLs []string
+	for _, u := range anyURLs {
+		if strings.HasPrefix(u, "https://") {
+			hostedURLs = append(hostedURLs, u)
 		}
 	}
 	mapper := func(t *rapid.T, fd protoreflect.FieldDescriptor, name string) (protoreflect.Value, bool) {
@@ -310,7 +319,7 @@ func cmdRapidgen(args []string) {
 			opts.AnyTypeURLs = anyURLs
 			if len(anyURLs) > 0 {
 				// fields annotated with (cosmos_proto.accepts_interface) need an implementation hint
-				opts.InterfaceHints = map[string]string{"verif.opt.Account": anyURLs[0][1:]}
+				opts.InterfaceHints = map[string]string{"verif.opt.Account": anyURLs[0][strings.LastIndexByte(anyURLs[0], '/')+1:]}
 			}
 		}
 		for i := 0; i < *n; i++ {
@@ -322,6 +331,12 @@ func cmdRapidgen(args []string) {
 			go func() {
 				var r res
 				r.panic = catch(func() {
+					opts := opts
+					if withAny && i%3 == 2 && len(hostedURLs) > 0 {
+						// every configured URL has a host and a path: a draw cannot fall back on a
+						// simpler form (a failed draw is retried silently by rapid)
+						opts.AnyTypeURLs = hostedURLs
+					}
 					gen := rapidproto.MessageGenerator(zero, opts)
 					r.m = gen.Example(*seed*1000 + i)
 				})
